@@ -78,6 +78,12 @@ CTORS = {
     "implode": "return implode(map_array(allocate(90), (: \"0123456789\" :)), repeat_string(\"-\", (n - 900) / 89 + 1));",
     "replace_string": "return replace_string(repeat_string(\"x\", n / 2), \"x\", \"xy\");",
     "upper": "return upper_case(repeat_string(\"x\", n));",
+    "unique_mapping": "a = allocate(n); for (v = 0; v < n; v++) a[v] = v; return unique_mapping(a, (: $1 :));",
+    "str_range_assign": "s = repeat_string(\"a\", n / 2); s[0..0] = repeat_string(\"b\", n - n / 2 + 1); return s;",
+    "str_range_assign_v": "s = repeat_string(\"a\", n / 2); v = (s[0..0] = repeat_string(\"b\", n - n / 2 + 1)); return s;",
+    "str_range_insert": "s = repeat_string(\"a\", n - 3); s[2..1] = \"xyz\"; return s;",
+    "explode_chars": "return explode(repeat_string(\"x\", n), \"\");",
+    "filter_mapping": "return filter_mapping(mk(n), (: 1 :));",
 }
 KIND = {"arr_addeq_self": "array", "arr_add_self": "array", "arr_doubling": "array", "str_addeq_self": "string", "str_doubling": "string",
         "map_addeq_self": "mapping", "buf_addeq_self": "buffer", "allocate": "array", "arr_add": "array", "arr_addeq": "array", "explode": "array", "keys": "array", "values": "array",
@@ -85,7 +91,8 @@ KIND = {"arr_addeq_self": "array", "arr_add_self": "array", "arr_doubling": "arr
         "allocate_mapping": "mapping", "map_add": "mapping", "map_addeq": "mapping", "map_insert": "mapping", "map_mapping": "mapping",
         "allocate_buffer": "buffer", "buf_add": "buffer",
         "str_add": "string", "str_addeq": "string", "str_intadd": "string", "repeat_string": "string", "sprintf_pad": "string",
-        "implode": "string", "replace_string": "string", "upper": "string"}
+        "implode": "string", "replace_string": "string", "upper": "string", "unique_mapping": "mapping", "str_range_assign": "string",
+        "str_range_assign_v": "string", "str_range_insert": "string", "explode_chars": "array", "filter_mapping": "mapping"}
 
 
 def sizes_src():
@@ -189,6 +196,9 @@ def run(tier, work):
     notrun = sum(1 for p in projs if len(p) < 2)
     if notrun:
         print("NOTE %d generated programs did not run (compile error in the generated LPC?)" % notrun)
+        if notrun > len(projs) // 20:
+            errs = [ev.get("msg") for ex in exs_s + exs_b for ev in ex["events"] if ev.get("e") == "CompileErr"][:3]
+            raise vlib.Broken("vacuous: %d of %d generated programs did not run: %s" % (notrun, len(projs), errs))
     accepted, nevents, rejects = vlib.validate_executions(SPEC, "EvalBudgetTrace", "EvalBudgetTrace.cfg", projs, work, max_rejects=12)
     for badi, upto in rejects:
         bad = projs[badi][upto] if upto < len(projs[badi]) else {"e": "?"}
